@@ -1,14 +1,29 @@
+//! Ad-hoc: build every cell of a case separately through the hooks; report panics and timing.
+use glam::DVec3;
+use meshless_voronoi::verif_hooks as hooks;
 use mvv::case::Case;
-use mvv::refmodel::{ref_cell, RefOpts};
 fn main() {
     let args: Vec<String> = std::env::args().collect();
     let c = Case::load(&args[1]).unwrap();
-    let i: usize = args[2].parse().unwrap();
-    for rev in [false, true] {
-        let r = ref_cell(&c, i, &RefOpts { reverse: rev, ..RefOpts::default() });
-        println!("reverse={rev} V={:e} cuts={}", r.volume, r.cuts);
-        for f in &r.faces {
-            println!("   {:?} area {:e} perim {:e}", f.tag, f.area, f.perimeter);
+    let (a, w) = (DVec3::from_array(c.eff_anchor()), DVec3::from_array(c.eff_width()));
+    let grid = hooks::Grid::new(a, w, c.periodic, c.dimensionality());
+    let gens = hooks::make_generators(&c.gens_v(), c.dimensionality());
+    let mut rows = vec![];
+    for i in 0..c.n() {
+        hooks::reset_exact_calls();
+        let t = std::time::Instant::now();
+        let r = std::panic::catch_unwind(|| hooks::cell_build(i, &gens, c.periodic, w, &grid));
+        let dt = t.elapsed().as_secs_f64();
+        let (calls, zeros) = hooks::exact_calls();
+        match r {
+            Ok(cell) => rows.push((dt, i, cell.vertices.len(), cell.clipping_planes.len(), calls, zeros, hooks::cell_safety_radius(&cell))),
+            Err(_) => println!("cell {i}: PANIC"),
         }
+    }
+    rows.sort_by(|a, b| b.0.partial_cmp(&a.0).unwrap());
+    let total: f64 = rows.iter().map(|r| r.0).sum();
+    println!("total {total:.2}s over {} cells", rows.len());
+    for r in rows.iter().take(8) {
+        println!("cell {}: {:.3}s, {} vertices, {} planes, exact calls {} (zeros {}), safety radius {:e}", r.1, r.0, r.2, r.3, r.4, r.5, r.6);
     }
 }
